@@ -98,7 +98,7 @@ int main(int argc, char **argv) {
   }
   // readword <k>: a program that exits with the never-written word k, under several randomisation seeds vs the clean power-on state
   if (argc >= 3 && !strcmp(argv[1], "readword")) {
-    uint32_t k = strtoul(argv[2], 0, 0); if (k < 32 || k >= 524288) k = 100;
+    uint32_t k = strtoul(argv[2], 0, 0); if (k < 6 || (k >= 16 && k < 20) || k >= 524288) k = 100;
     writeReaderImage("c13_reader.bin", k); g_image = "c13_reader.bin";
     Outcome clean = runOnce(cleanP, 40); std::string why; int badSeed = 0;
     for (int sd = 1; sd <= 6 && why.empty(); sd++) { Planted p{false, 0, 0, 0, 0, 0, sd * 7919}; Outcome got = runOnce(p, 40); why = differs(got, clean); badSeed = p.seed; }
@@ -124,7 +124,12 @@ int main(int argc, char **argv) {
       }
       bool reader = !p.use && (it % 4 == 0);      // seeded power-on state + a program that reads a word it never wrote
       uint32_t rk = 0;
-      if (reader) { rk = 64 + (uint32_t)(rng() % 500000); writeReaderImage("c13_reader.bin", rk); g_image = "c13_reader.bin"; }
+      if (reader) {
+        // half of the readers look directly behind the image (words 6..15, 20..23: the image has at most 6 words, 16..19 are its stack), the others anywhere
+        static const uint32_t NEAR[] = {6, 7, 8, 9, 10, 11, 12, 13, 14, 15, 20, 21, 22, 23};
+        rk = (it % 8 == 0) ? NEAR[rng() % 14] : 64 + (uint32_t)(rng() % 500000);
+        writeReaderImage("c13_reader.bin", rk); g_image = "c13_reader.bin";
+      }
       Outcome clean = runOnce(cleanP, k), got = runOnce(p, k);
       g_image = "c13_img.bin";
       std::string w = differs(got, clean);
